@@ -626,6 +626,11 @@ impl<'p> Machine<'p> {
             Stmt::Def { name, params, body } => {
                 let line = self.cur_line.unwrap_or(0);
                 self.funcs.insert(name.clone(), Func { params: params.clone(), body: body.clone(), line });
+                // the definition runs up to and including the `:` that ends it: the separator is not a
+                // turn of its own after DEF (turn accounting only; observed on the pinned tree, DESIGN.md §9)
+                if self.pos == Some(seq) {
+                    self.pos = Some(Pos { line: here.line, item: here.item + 2, after_then: false });
+                }
                 Ok(())
             }
             Stmt::Input(t) => {
